@@ -90,9 +90,6 @@ def body(env, prog, conn):
         importlib.reload(_ml)
         if route[0] == "configure":
             _mc.configure(SHARED_DIR=route[1])
-    from molli._aux.lock import rwlock as _rwl
-
-    env.mainlock = _rwl(prog["lib"]).name
     env.construct = construct
     if not prog.get("sched_ctor"):
         env.cur = construct()
@@ -164,6 +161,7 @@ def _between(env, sess, e, j):
     if inner and inner["at"] == j:
         # a complete session on ANOTHER library, nested inside this one
         r = {"kind": inner["kind"], "puts": inner.get("puts", []), "puts_ok": [], "listed": None, "exc": None}
+        outer_tag = env.lock_tag
         env.lock_tag = "@inner"
         try:
             c2 = getattr(env, "coll2", None)
@@ -182,7 +180,7 @@ def _between(env, sess, e, j):
             r["exc"] = type(ex).__name__
             r["exc_msg"] = str(ex)[:80]
         finally:
-            env.lock_tag = ""
+            env.lock_tag = outer_tag
         e["inner"] = r
 
 
@@ -191,7 +189,11 @@ def do_session(env, coll, sess):
         # a session on ANOTHER library of the same process (its own handle, kept between sessions)
         c2 = getattr(env, "coll2", None)
         if c2 is None or getattr(env, "coll2_path", None) != sess["lib2"]:
-            c2 = Collection(sess["lib2"], UkvCollectionBackend, readonly=False, bufsize=BUFS["large"])
+            env.lock_tag = "@inner"  # the constructor's own brief write lock is not a session
+            try:
+                c2 = Collection(sess["lib2"], UkvCollectionBackend, readonly=False, bufsize=BUFS["large"])
+            finally:
+                env.lock_tag = ""
             env.coll2, env.coll2_path = c2, sess["lib2"]
         coll = c2
     if sess.get("fresh_handle"):
@@ -209,6 +211,7 @@ def do_session(env, coll, sess):
     timeout = 0 if sess.get("timeout") else None
     env.nonblocking = timeout is not None
     env._refused = False
+    env.lock_tag = ":lib2" if sess.get("lib2") else ""
     try:
         if sess["kind"] in ("W", "D", "M"):
             with coll.writing(timeout=timeout):
@@ -256,6 +259,7 @@ def do_session(env, coll, sess):
         e["exc_msg"] = str(ex)[:80]
     e["gave_up"] = bool(env.nonblocking and env._refused)
     env.nonblocking = False
+    env.lock_tag = ""
     be = coll._backend
     e["state_after"] = be._state
     uf = getattr(be, "_ukvfile", None)
@@ -279,7 +283,8 @@ def _lname(info):
 
 
 class Monitor:
-    def __init__(self, lockpath=None):
+    def __init__(self, lockpath=None, lock2path=None):
+        self.lock2path = Path(lock2path) if lock2path else None
         self.open = {}
         self.lock = {}
         self.violations = []
@@ -294,7 +299,9 @@ class Monitor:
         if self.lockpath is None or wid not in self.lock or label == "lock?":
             return
         held = self.lock[wid]
-        path = self.lockpath.parent / (_lname(held) or self.lockpath.name)
+        path = self.lock2path if _lname(held) == "lib2" else self.lockpath
+        if path is None:
+            return
         import fcntl
 
         try:
@@ -358,6 +365,11 @@ class Bench:
 
     def close(self):
         self.ctl.close()
+
+    def lock2path(self):
+        from molli._aux.lock import rwlock
+
+        return Path(self.lockpath).parent / rwlock(self.lib2).name
 
     def spelled(self, wid, how):
         if how == "abs":
@@ -693,14 +705,14 @@ def run_spec(ctx, bench: Bench, spec, bound, stats, max_viol=6):
     nviol = [0]
 
     def mon_factory():
-        m = Monitor(bench.lockpath)
+        m = Monitor(bench.lockpath, bench.lock2path())
         bench._mon = m
         return m
 
     bench.ctl.monitor_factory = mon_factory
 
-    def on_exec(x, prefix):
-        x._events = list(bench._mon.events) if False else list(bench._mon.events)
+    def all_verdicts(x, count=True):
+        x._events = list(bench._mon.events)
         verdicts = list(x.verdicts)
         if not verdicts and len(x.logs) == bench.n:
             verdicts = judge(bench, spec, x)
@@ -708,9 +720,14 @@ def run_spec(ctx, bench: Bench, spec, bound, stats, max_viol=6):
                 # conformance in the other direction: what the implementation did at lock level
                 # must be a behaviour of the TLA+ session model (explored exhaustively by TLC)
                 got = tuple((w, "acq" if e == "acq" else "rel") for e, w, _ in x._events)
-                ctx.add_note("executions_checked_against_model", 1)
+                if count:
+                    ctx.add_note("executions_checked_against_model", 1)
                 if got not in allowed:
                     verdicts.append(("lock-level-behaviour-outside-the-RW-model", f"events {got} are not a behaviour of models/Sessions.tla for programs {lock_level(spec)}"))
+        return verdicts
+
+    def on_exec(x, prefix):
+        verdicts = all_verdicts(x)
         npre = schedx.preemptions_before(x, len(x.points))
         ctx.count(evaluations=1, traces=1, transitions=len(x.choices))
         order = tuple((w, l) for (w, l, i) in x.trace if l in ("lock?", "unlock"))
@@ -734,8 +751,7 @@ def run_spec(ctx, bench: Bench, spec, bound, stats, max_viol=6):
                 seen_sigs.add(sig)
                 # (e) the same schedule must give the same verdict before anything is reported
                 x2 = bench.ctl.run(progs, list(x.choices), bench.reset_env)
-                x2._events = list(bench._mon.events)
-                v2 = list(x2.verdicts) or (judge(bench, spec, x2) if len(x2.logs) == bench.n else [])
+                v2 = all_verdicts(x2, count=False)
                 if sorted(s for s, _ in v2) != sorted(s for s, _ in verdicts):
                     raise HarnessError(f"schedule replay gave different verdicts: {verdicts} vs {v2}")
                 ctx.violation(sig, detail, {"nworkers": bench.n, "spec": spec, "choices": list(x.choices)})
@@ -1028,7 +1044,7 @@ def part_model(sc, part):
             for wid, kinds in enumerate(progs_lock):
                 spec.append({"spelling": sp_all[(wid + sc.seed) % 3], "buf": ["dflt", "large"][wid % 2], "ro": False, "sessions": mk_sessions(wid, kinds, sc.seed)})
             progs = bench.programs(spec)
-            bench.ctl.monitor_factory = lambda: setattr(bench, "_mon", Monitor(bench.lockpath)) or bench._mon
+            bench.ctl.monitor_factory = lambda: setattr(bench, "_mon", Monitor(bench.lockpath, bench.lock2path())) or bench._mon
             x = bench.ctl.run(progs, [], bench.reset_env, chooser=TraceFollower(trace))
             x._events = list(bench._mon.events)
             sc.count(evaluations=1, traces=1, transitions=len(x.choices))
@@ -1169,7 +1185,7 @@ def replay(ctx, case):
                 if "puts" in s:
                     s["puts"] = [(k, _unjson(v)) for k, v in s["puts"]]
         progs = bench.programs(spec)
-        bench.ctl.monitor_factory = lambda: setattr(bench, "_mon", Monitor(bench.lockpath)) or bench._mon
+        bench.ctl.monitor_factory = lambda: setattr(bench, "_mon", Monitor(bench.lockpath, bench.lock2path())) or bench._mon
         x = bench.ctl.run(progs, list(case["choices"]), bench.reset_env)
         x._events = list(bench._mon.events)
         verdicts = list(x.verdicts) or (judge(bench, spec, x) if len(x.logs) == bench.n else [])
